@@ -18,8 +18,17 @@ pub mod hexser {
     pub fn serialize<S: Serializer>(v: &Vec<u8>, s: S) -> Result<S::Ok, S::Error> {
         s.serialize_str(&crate::runner::hex(v))
     }
+    #[derive(serde::Deserialize)]
+    #[serde(untagged)]
+    enum HexOrSeq {
+        S(String),
+        V(Vec<u8>),
+    }
     pub fn deserialize<'de, D: Deserializer<'de>>(d: D) -> Result<Vec<u8>, D::Error> {
-        let s = String::deserialize(d)?;
+        let s = match HexOrSeq::deserialize(d)? {
+            HexOrSeq::V(v) => return Ok(v),
+            HexOrSeq::S(s) => s,
+        };
         let s = s.trim();
         let mut out = Vec::with_capacity(s.len() / 2);
         let b = s.as_bytes();
